@@ -1,6 +1,6 @@
 package server
 
-// Native demonstrations of the five design-level known findings (known_findings.txt) against the REAL build: each test
+// Native demonstrations of the design-level known findings (known_findings.txt) against the REAL build: each test
 // reproduces, with the real Router / Service / PauseController / Target code and real backends, the history that the
 // symbolic checks report, by performing the descheduled request's steps by hand at the points where the engine
 // deschedules it. A test PASSES when the finding is present (it asserts the defective outcome) and starts failing if
@@ -136,4 +136,46 @@ func TestFinding_C07_ResumeThenPauseLetsWaiterProceedWhilePaused(t *testing.T) {
 	}
 	// ... and Wait's code re-reads the state: anything but 'stopped' means proceed
 	require.Equal(t, PauseStatePaused, p.GetState(), "known finding: the waiter proceeds although the service is paused again")
+}
+
+// F2 (C02): the request that obtained the Service before the redeploy swapped it reaches the replaced target while it
+// is being drained and is answered 503 by the proxy, during a redeploy between two healthy target sets.
+func TestFinding_C02_StaleServiceRefusedWhileDraining(t *testing.T) {
+	router := findingRouter(t)
+	release := make(chan struct{})
+	_, a := testBackendWithHandler(t, func(w http.ResponseWriter, r *http.Request) {
+		if r.URL.Path == "/slow" {
+			<-release
+		}
+		w.Write([]byte("old"))
+	})
+	b := findingBackend(t, "new")
+	require.NoError(t, router.DeployService("svc", []string{a}, defaultServiceOptions, defaultTargetOptions, DefaultDeployTimeout, DefaultDrainTimeout))
+
+	// a slow request is in flight on the old target, so that its drain takes a while
+	slowDone := make(chan struct{})
+	go func() {
+		router.ServeHTTP(httptest.NewRecorder(), httptest.NewRequest(http.MethodGet, "http://example.com/slow", nil))
+		close(slowDone)
+	}()
+	time.Sleep(100 * time.Millisecond)
+
+	req := httptest.NewRequest(http.MethodGet, "http://example.com/", nil)
+	stale, _ := router.serviceForRequest(req) // the request is descheduled right after its lookup
+	active, _, _ := stale.loadBalancers()
+	oldTarget := active.Targets()[0]
+
+	deployed := make(chan error, 1)
+	go func() {
+		deployed <- router.DeployService("svc", []string{b}, defaultServiceOptions, defaultTargetOptions, DefaultDeployTimeout, DefaultDrainTimeout)
+	}()
+	require.Eventually(t, func() bool { return oldTarget.State() == TargetStateDraining }, 5*time.Second, time.Millisecond)
+
+	w := httptest.NewRecorder()
+	stale.ServeHTTP(w, req) // the request resumes while the replaced target is draining
+	require.Equal(t, http.StatusServiceUnavailable, w.Result().StatusCode, "known finding: proxy 503 during a redeploy between two healthy target sets")
+
+	close(release)
+	<-slowDone
+	require.NoError(t, <-deployed)
 }
